@@ -68,7 +68,7 @@ fn kinds_for(e: &Event) -> Vec<FaultKind> {
         Op::Unlink | Op::Rmdir | Op::Rename | Op::Truncate | Op::Chmod | Op::Link | Op::Symlink | Op::Utimens | Op::Fsync | Op::CopyRange => {
             vec![FaultKind::Err(libc::EACCES), FaultKind::CrashBefore, FaultKind::CrashAfter]
         }
-        Op::OpenR | Op::Read => vec![],
+        Op::OpenR | Op::Read | Op::OpenDir => vec![],
     }
 }
 
@@ -678,11 +678,20 @@ impl Check for C17 {
             // read side: every open/read of a SOURCE file of the golden run. (Configuration files
             // are left alone: the tool documents a fall-back to defaults for an unusable
             // configuration, which is not a failed run.)
-            let read_points: Vec<Event> = gold.res.trace.iter().filter(|e| e.rseq.is_some() && e.path.ends_with(".rs") && e.ret >= 0).cloned().collect();
+            // ... and every listing of a directory of the project (a sub-directory that lost its
+            // permissions): the walk must fail, not go on without the files below it
+            let read_points: Vec<Event> = gold
+                .res
+                .trace
+                .iter()
+                .filter(|e| e.rseq.is_some() && e.ret >= 0 && (e.path.ends_with(".rs") || (e.op == Op::OpenDir && e.path.contains("/app/src-tauri"))))
+                .cloned()
+                .collect();
             for e in &read_points {
                 let k = e.rseq.unwrap() as usize;
                 let kinds: Vec<FaultKind> = match e.op {
                     Op::OpenR => vec![FaultKind::Err(libc::EIO), FaultKind::Err(libc::EACCES), FaultKind::Eintr],
+                    Op::OpenDir => vec![FaultKind::Err(libc::EACCES), FaultKind::Err(libc::EIO)],
                     Op::Read if e.ret > 0 => vec![FaultKind::Err(libc::EIO), FaultKind::ShortRead { k: (e.ret as usize / 2).max(1) }, FaultKind::Eintr],
                     _ => vec![],
                 };
@@ -692,7 +701,7 @@ impl Check for C17 {
                     }
                     let fl = fault_label(&kind);
                     let what = format!("{} at read point {} ({} {}) in a {} run [{}]", fl, k, e.op.name(), e.path.rsplit('/').next().unwrap_or(""), c.prestate, c.setup.label());
-                    let sig_tail = format!("<source>:{}/{}/{}", e.op.name(), fl, c.prestate);
+                    let sig_tail = format!("{}:{}/{}/{}", if e.op == Op::OpenDir { "<source-dir>" } else { "<source>" }, e.op.name(), fl, c.prestate);
                     judge(env, &mut co, &sc, &[vec![FaultSpec { at: FaultAt::Read(k), kind: kind.clone() }]], &what, &sig_tail, json!(null), None);
                     n_inj += 1;
                     co.reach("file_x_op_x_kind", format!("<source>:{}/{}", e.op.name(), fl));
